@@ -139,7 +139,7 @@ def _serialize_inventory(inventory, generation=None):
         field: getattr(inventory, field)
         for field in OUTPUT_INVENTORY_FIELDS
     }
-    if generation:
+    if generation is not None:
         data['resource_provider_generation'] = generation
     return data
 
